@@ -453,6 +453,36 @@ func c13(x *mon.Ctx) {
 			}
 			add("platform-certificate-extension", fmt.Sprint("honest", rep), "exact", p, world.Seq(top...), nil)
 		}
+		// a field nobody reads may hold a value of ANY type, however it is encoded: high tag numbers (31 and above take further
+		// identifier octets), every class, long-form lengths, constructed strings' cousins. The values that are read stay what they are.
+		for ui, u := range []struct {
+			name string
+			val  []byte
+		}{
+			{"context-31-primitive", []byte{0x9f, 0x1f, 0x01, 0x00}}, {"context-31-constructed", []byte{0xbf, 0x1f, 0x03, 0x02, 0x01, 0x05}},
+			{"application-1000", []byte{0x5f, 0x87, 0x68, 0x01, 0x00}}, {"private-16383", []byte{0xdf, 0xff, 0x7f, 0x00}}, {"universal-31", []byte{0x1f, 0x1f, 0x01, 0x41}},
+			{"context-200-constructed-empty", []byte{0xbf, 0x81, 0x48, 0x00}},
+			{"enumerated", world.TLV(0x0a, []byte{2})}, {"null", world.TLV(5, nil)}, {"context-3", world.TLV(0x83, []byte{1})}, {"application-30", world.TLV(0x5e, []byte{1, 2})},
+			{"utf8", world.TLV(0x0c, []byte("Intel"))}, {"real", world.TLV(9, []byte{0x80, 0x01, 0x03})}, {"bit-string", world.TLV(3, []byte{0, 0xf0})}, {"utctime", world.TLV(0x17, []byte("300101000000Z"))},
+			{"set-of-integers", world.TLV(0x31, append(world.Int(1), world.Int(2)...))}, {"oid", world.OID(99)}, {"relative-oid", world.TLV(0x0d, []byte{1, 2})},
+			{"long-form-length-octets", append([]byte{0x04, 0x82, 0x01, 0x00}, make([]byte, 256)...)}, {"octets-64KiB", world.Octets(make([]byte, 65536))},
+			{"sequence-holding-a-ppid-lookalike", world.Seq(world.Seq(world.OID(1), world.Octets(make([]byte, 16))))},
+		} {
+			for _, where := range []string{"first", "last", "middle"} {
+				p := randPlat(r)
+				top := world.SgxTopElems(p, world.SgxTcbElems(p))
+				el := world.Seq(world.OID(10+ui), u.val)
+				switch where {
+				case "first":
+					top = append([][]byte{el}, top...)
+				case "last":
+					top = append(top, el)
+				default:
+					top = append(append(append([][]byte{}, top[:2]...), el), top[2:]...)
+				}
+				add("unread-field-of-any-type", u.name+"/"+where, "exact", p, world.Seq(top...), nil)
+			}
+		}
 		for _, tgt := range []struct {
 			name string
 			idx  int
@@ -667,6 +697,7 @@ func c13(x *mon.Ctx) {
 	x.Require("tcb-element-neighbouring-oid", 0, 0, 45)
 	x.Require("value-identifier-octet", 0, 1700, 1700)
 	x.Require("platform-certificate-extension", 40, 0, 40)
+	x.Require("unread-field-of-any-type", 60, 0, 60)
 	x.Require("platform-certificate-wrong-type", 0, 105, 105)
 	x.Require("pcesvn-out-of-range", 0, 6, 6)
 	x.Require("truncated", 0, 300, 300)
